@@ -165,10 +165,10 @@ def main():
     os.makedirs(work)
     tpath = os.path.join(sc, "trace.ndjson")
     reps = 10 if thorough else 2                  # hooked (recorded + perturbed) repetitions per case
-    max_hooked = 8000 if thorough else 700
+    max_hooked = 8000 if thorough else 500
     env = vlib.goenv()
     env["GORACE"] = "halt_on_error=1 exitcode=66"
-    max_traced = 1500 if thorough else 300
+    max_traced = 1500 if thorough else 200
     args = [binp, "run", cpath, work, str(ck.seed), str(reps), tpath if hooks else "-", str(max_hooked), str(max_traced)]
     if corrupt:
         args.append("corrupt")
